@@ -1461,6 +1461,7 @@ class FakeServer:
         self.calls = 0
         self.asked = []
         self.after_reply = None
+        self.before_subscribe_reply = None
 
     async def _yield(self):
         self.calls += 1
@@ -1509,6 +1510,8 @@ class FakeServer:
 
     async def subscribe_address(self, address, *addresses):
         await self._yield()
+        if self.before_subscribe_reply is not None:     # the reply may be held back while other things happen
+            await self.before_subscribe_reply((address,) + addresses)
         out = []
         for a in (address,) + addresses:
             if a not in self.subscribed:
@@ -1561,7 +1564,7 @@ class FakeServer:
         self._on_status_controller.add(update)
 
 
-async def run_sync(seed, gaps=(4, 3), stages=4, mode='mixed', third_party_script=None, claim_name=None, in_flight=0):
+async def run_sync(seed, gaps=(4, 3), stages=4, mode='mixed', third_party_script=None, claim_name=None, in_flight=0, held_subscriptions=0):
     """build the wallet, grow the chain in stages, deliver the notifications, compare with the oracle; returns the discrepancies"""
     import os
     import random
@@ -1584,7 +1587,7 @@ async def run_sync(seed, gaps=(4, 3), stages=4, mode='mixed', third_party_script
     ledger = Ledger({'db': Database(os.path.join(d, 'blockchain.db')), 'headers': ChainHeaders(':memory:'), 'network': server})
     ledger.headers.checkpoints = {}
     await ledger.db.open()
-    problems, failures = [], []
+    problems, failures, finished = [], [], []
     real_update = ledger.update_history
 
     async def recording_update(address, remote_status, address_manager=None, reattempt_update=True):
@@ -1593,6 +1596,8 @@ async def run_sync(seed, gaps=(4, 3), stages=4, mode='mixed', third_party_script
         except Exception as e:      # noqa
             failures.append(f'update_history({address}) raised {type(e).__name__}: {str(e)[:80]}')
             raise
+        finally:
+            finished.append(address)
     ledger.update_history = recording_update
     try:
         account = Account.from_dict(ledger, Wallet(), {"seed": SEED, "address_generator": {
@@ -1662,6 +1667,43 @@ async def run_sync(seed, gaps=(4, 3), stages=4, mode='mixed', third_party_script
                 server.notify(n)
         if in_flight:
             server.after_reply = grow_while_update_in_flight
+        held = [held_subscriptions]
+
+        async def hold_back_subscription_reply(addresses):
+            """the wallet subscribes freshly generated addresses: ensure_address_gap of that chain is in flight and holds the generator
+            lock while it waits for this reply.  Before replying the server accepts a payment to the address that was the END of the
+            chain (fresh, higher than the one whose use started the top-up) and one to the address `gap` beyond it, notifies, and
+            waits until the wallet has stored that history and its update has reached gap maintenance (blocked on the generator lock, or
+            finished) - only then the held-back reply is sent."""
+            owners = [owner_of.get(a) for a in addresses]
+            if held[0] <= 0 or any(o is None for o in owners) or any(a in server.subscribed for a in addresses):
+                return
+            chain, end = owners[0][1], min(o[2] for o in owners) - 1
+            if end < 0 or address_of(('mine', chain, end)) not in server.subscribed or server.history(address_of(('mine', chain, end))):
+                return
+            held[0] -= 1
+            for index in (end, end + gaps[chain]):
+                no = len(txs)
+                txs.append(dict(no=no, ins=[('ext', 200000 + no)], outs=[('plain', ('mine', chain, index), rnd.randint(10 ** 5, 10 ** 8))]))
+                server.add_mempool(*build(txs[no]))
+            target = address_of(('mine', chain, end))
+            before = len([a for a in finished if a == target])
+            for n in server.pending_notifications():
+                server.notify(n)
+            manager = account.address_managers[chain]
+            for _ in range(3000):
+                await asyncio.sleep(0.001)
+                stored = (await ledger.db.get_address(address=target) or {}).get('history') or ''
+                if stored == server_history_string(server.history(target)) and \
+                        (len([a for a in finished if a == target]) > before or getattr(manager.address_generator_lock, '_waiters', None)):
+                    break
+            for _ in range(5):
+                await asyncio.sleep(0)
+        if held_subscriptions:
+            for chain in (0, 1):        # reverse lookup address -> (chain, index) for the addresses the wallet may generate
+                for index in range(60 + 3 * gaps[chain]):
+                    address_of(('mine', chain, index))
+            server.before_subscribe_reply = hold_back_subscription_reply
 
         stale = []
         for s, step in enumerate(plan):
@@ -1696,6 +1738,19 @@ async def run_sync(seed, gaps=(4, 3), stages=4, mode='mixed', third_party_script
         for n in stale + server.pending_notifications():
             server.notify(n)
         await settle()
+        if held_subscriptions:
+            # a last, deterministic round per chain, after which nothing can repair a chain left short: the LOWEST of the fresh
+            # addresses is paid; its update tops the chain up by one address and waits for the subscription reply, which is held
+            # back (see above) until the address that was the end of the chain is used, stored and at gap maintenance
+            for chain in (0, 1):
+                if gaps[chain] >= 2:
+                    records = await account.address_managers[chain]._query_addresses(order_by="n asc")
+                    held[0], no = 1, len(txs)
+                    txs.append(dict(no=no, ins=[('ext', 300000 + no)], outs=[('plain', ('mine', chain, len(records) - gaps[chain]), 12345 + no)]))
+                    server.add_mempool(*build(txs[no]))
+                    for n in server.pending_notifications():
+                        server.notify(n)
+                    await settle()
         problems += failures[:3]
 
         # ---------------- the oracle, from the chain definition
